@@ -6,6 +6,11 @@ import io
 import os
 
 
+def num(v):
+    """Cases are plain JSON: the infinities are written as the strings "inf" / "-inf"."""
+    return float(v) if isinstance(v, str) else v
+
+
 class TableRep:
     def genotype_to_phenotype(self, g):
         return g
@@ -52,7 +57,7 @@ def build(case, path, extra_recorders_before=(), extra_recorders_after=()):
     else:
         tracker = MultiObjectiveProgressTracker(problem, SequentialEvaluator(), recorders=recorders)
     rep = TableRep()
-    inds = [Individual((i, tuple(v)), rep) for i, v in enumerate(case["values"])]
+    inds = [Individual((i, tuple(num(x) for x in v)), rep) for i, v in enumerate(case["values"])]
     pre = case.get("prescored", 0)
     if pre:
         # the individuals were scored before on ANOTHER problem (an earlier search, co-evolution):
@@ -77,6 +82,7 @@ def header_for(case):
 
 def expected_row(case, idx, vec, aggregate):
     k = case["objectives"]
+    vec = [num(x) for x in vec]
     comps = [float(x) for x in vec]
     if case["fields"] == "custom":
         row = [idx] + comps + [aggregate]
